@@ -22,6 +22,7 @@
   Feature-level statements cite C02, C03, C04 for one step of a loop.
 -/
 import Gts.Lemmas.Cli
+import Gts.Lemmas.CliFeatures
 import Gts.Props.C02
 import Gts.Props.C03
 import Gts.Props.C04
@@ -541,6 +542,332 @@ theorem extract_invert_cover (locs : List (Seq → List Reg)) (s : Seq)
     rw [Cli.nonEmpty_many_iff] at hne ⊢
     intro r hr; exact hne r ((hmem r).mp hr)
 
+/-! ## delete: what happens to the FEATURES (multi-site) -/
+
+/-- **composition lemma (delete)**, pure arithmetic: for forward, increasing, pairwise disjoint
+segments, folding the single-cut re-mappings `delMap s (e-s)` over the segments in DESCENDING
+order (`Cli.composeDel`, the order of the loop) is `Cli.unionDelMap`, a re-mapping of the
+INPUT's positions: a position inside some segment is removed, any other position `x` moves left
+by the total length of the segments that end at or before `x`. -/
+theorem delete_remap_compose_segs (ss : List Seg) (hf : ∀ o ∈ ss, o.1 ≤ o.2)
+    (hp : ss.Pairwise (fun a b => a.2 ≤ b.1)) (x : Int) :
+    Cli.composeDel ss x = Cli.unionDelMap ss x :=
+  Cli.composeDel_eq_unionDelMap ss hf hp x
+
+/-- … in particular for the minimised segments of ANY region (C09: forward, strictly increasing,
+never abutting) — no hypothesis. -/
+theorem delete_remap_compose (r : Reg) (x : Int) :
+    Cli.composeDel (minimize r) x = Cli.unionDelMap (minimize r) x :=
+  Cli.composeDel_eq_unionDelMap _ (minimize_fwd r) ((minimize_pairwise r).imp Int.le_of_lt) x
+
+/-- the positions `unionDelMap` removes are exactly the positions some located region covers -/
+theorem unionDelMap_removed_iff (r : Reg) (x : Int) :
+    Cli.unionDelMap (minimize r) x = none ↔ cover r x := by
+  unfold Cli.unionDelMap
+  rw [← minimize_segsCover r x]
+  split <;> simp [*]
+
+/-- a position left of every located region stays where it is -/
+theorem unionDelMap_left (r : Reg) (x : Int) (h : ∀ o ∈ minimize r, x < o.1) :
+    Cli.unionDelMap (minimize r) x = some x := by
+  unfold Cli.unionDelMap
+  rw [if_neg, Cli.delOffset_zero_of_lt _ (minimize_fwd r) x h]
+  · simp
+  · rintro ⟨o, ho, h1, _⟩
+    have := h o ho; omega
+
+/-- `unionDelMap` is injective where it is defined (two surviving residues never collide) -/
+theorem unionDelMap_inj (r : Reg) (x x' y : Int) (h : Cli.unionDelMap (minimize r) x = some y)
+    (h' : Cli.unionDelMap (minimize r) x' = some y) : x = x' := by
+  rw [← delete_remap_compose] at h h'
+  exact Cli.composeDel_inj _ x x' y h h'
+
+/-- **`gts delete` keeps every feature**: the same number, in the same table order, with
+unchanged key and qualifiers; each is re-located by `Cli.delLoc` — `Expand(head, -len)` for
+every minimised segment, from the rightmost to the leftmost. -/
+theorem delete_feats (loc : Seq → List Reg) (s : Seq) :
+    (Cli.delete loc false s).feats =
+      s.feats.map fun f => { f with loc := Cli.delLoc (minimize (many (loc s))) f.loc } :=
+  Cli.deleteSegs_feats _ _
+
+/-- FULL STATEMENT (false today through known finding K2 inside `Join`):
+`∀ loc s, ∀ f ∈ s.feats, wf f.loc → ∃ f' ∈ (Cli.delete loc false s).feats, f'.key = f.key ∧
+ f'.props = f.props ∧ den f'.loc ≼ filterMapPos (unionDelMap (minimize (many (loc s)))) (den f.loc)`;
+witness: `join(4..6,9)` on a 10-residue record with `[6,8)` deleted loses base 9. -/
+theorem delete_features_full_refuted :
+    ¬ (∀ (loc : Seq → List Reg) (s : Seq) (f : Feature), f ∈ s.feats → f.loc.wf = true →
+        ∃ f' ∈ (Cli.delete loc false s).feats, f'.key = f.key ∧ f'.props = f.props ∧
+          f'.loc.den ≼ filterMapPos (Cli.unionDelMap (minimize (many (loc s)))) f.loc.den) := by
+  intro h
+  obtain ⟨f', hf', _, _, hden⟩ := h (fun _ => [seg 6 8])
+    ⟨[⟨"gene", .joined [.ranged 3 6 false false, .point 8], []⟩], [97, 99, 103, 116, 97, 99, 103, 116, 97, 99]⟩
+    ⟨"gene", .joined [.ranged 3 6 false false, .point 8], []⟩ (by simp) (by decide)
+  rw [delete_feats] at hf'
+  simp only [List.map_cons, List.map_nil, List.mem_singleton] at hf'
+  subst hf'
+  have := hden.2 (6, false) (by rw [minimize_eq]; decide)
+  revert this
+  rw [minimize_eq]
+  decide
+
+/-- **`gts delete`, every feature, every locator** (last sentence of the property): for every
+feature `f` of the input record with a well-formed location of any kind, nesting and strand, and
+every locator, the record written by `gts delete` contains a feature with the same key and
+qualifiers whose location denotes exactly the residues `f` denoted in the INPUT that no located
+region covers, at their new positions (`Cli.unionDelMap` of the minimised located regions), in
+the same order and on the same strand (duplicate occurrences may be merged) — provided rule K2
+fires in no `Join` of any step of the loop (`Cli.delAbs`, the conjunction of the single-step
+guards `expandAbs`, decidable).  The located regions may overlap, nest, lie on either strand,
+have zero length, or reach outside the record. -/
+theorem delete_features_partial (loc : Seq → List Reg) (s : Seq) (f : Feature) (hf : f ∈ s.feats)
+    (hw : f.loc.wf = true) (hk2 : Cli.delAbs (minimize (many (loc s))) f.loc = false) :
+    ∃ f' ∈ (Cli.delete loc false s).feats, f'.key = f.key ∧ f'.props = f.props ∧
+      f'.loc.den ≼ filterMapPos (Cli.unionDelMap (minimize (many (loc s)))) f.loc.den := by
+  refine ⟨{ f with loc := Cli.delLoc (minimize (many (loc s))) f.loc }, ?_, rfl, rfl, ?_⟩
+  · rw [delete_feats]; exact List.mem_map_of_mem hf
+  · have h := (Cli.delLoc_den (minimize (many (loc s))) f.loc hw).1 hk2
+    rw [show Cli.composeDel (minimize (many (loc s))) = Cli.unionDelMap (minimize (many (loc s))) from
+      funext (delete_remap_compose _)] at h
+    exact h
+
+/-- … with EQUALITY for duplicate-free locations (every real feature). -/
+theorem delete_features_eq_partial (loc : Seq → List Reg) (s : Seq) (f : Feature) (hf : f ∈ s.feats)
+    (hw : f.loc.wf = true) (hk2 : Cli.delAbs (minimize (many (loc s))) f.loc = false)
+    (hnd : f.loc.den.Nodup) :
+    ∃ f' ∈ (Cli.delete loc false s).feats, f'.key = f.key ∧ f'.props = f.props ∧
+      f'.loc.den = filterMapPos (Cli.unionDelMap (minimize (many (loc s)))) f.loc.den := by
+  obtain ⟨f', h1, h2, h3, h4⟩ := delete_features_partial loc s f hf hw hk2
+  exact ⟨f', h1, h2, h3, h4.eq_of_nodup
+    (Cli.nodup_filterMapPos _ _ (unionDelMap_inj (many (loc s))) hnd)⟩
+
+/-- the re-located features stay well-formed (so the theorems apply again to the output) -/
+theorem delete_features_wf (loc : Seq → List Reg) (s : Seq) (f : Feature) (hw : f.loc.wf = true) :
+    (Cli.delLoc (minimize (many (loc s))) f.loc).wf = true :=
+  (Cli.delLoc_den _ f.loc hw).2
+
+/-- **`gts delete -e`, which features are dropped**: exactly those failing `Cli.eraseKeep` — at
+some cut of the loop the feature is not a `source` and its CURRENT location (after the cuts to
+the right) lies wholly within the segment being cut (`gts.Erase`, C03 `erase_spec`); the others
+survive in table order with unchanged key and qualifiers, re-located as under plain delete. -/
+theorem delete_erase_feats (loc : Seq → List Reg) (s : Seq) :
+    (Cli.delete loc true s).feats =
+      (s.feats.filter (Cli.eraseKeep (minimize (many (loc s))))).map fun f =>
+        { f with loc := Cli.delLoc (minimize (many (loc s))) f.loc } :=
+  Cli.deleteSegs_erase_feats _ _
+
+/-- a `source` feature is never dropped -/
+theorem delete_erase_keeps_source (ss : List Seg) (f : Feature) (h : f.key = "source") :
+    Cli.eraseKeep ss f = true := by
+  induction ss with
+  | nil => rfl
+  | cons a ss ih => simp [Cli.eraseKeep, ih, h]
+
+/-- without any located region nothing is dropped; a feature is dropped at the first (rightmost)
+cut at which its current location lies within the cut -/
+theorem delete_erase_keep_iff (a : Seg) (ss : List Seg) (f : Feature) :
+    Cli.eraseKeep (a :: ss) f = true ↔
+      Cli.eraseKeep ss f = true ∧
+        (f.key = "source" ∨ (Cli.delLoc ss f.loc).within a.1 (a.1 + Reg.gabs (a.2 - a.1)) = false) := by
+  simp [Cli.eraseKeep]
+
+/-- **`gts delete -e`, surviving features** denote their former residues like under plain delete -/
+theorem delete_erase_features_partial (loc : Seq → List Reg) (s : Seq) (f : Feature) (hf : f ∈ s.feats)
+    (hkeep : Cli.eraseKeep (minimize (many (loc s))) f = true)
+    (hw : f.loc.wf = true) (hk2 : Cli.delAbs (minimize (many (loc s))) f.loc = false) :
+    ∃ f' ∈ (Cli.delete loc true s).feats, f'.key = f.key ∧ f'.props = f.props ∧
+      f'.loc.den ≼ filterMapPos (Cli.unionDelMap (minimize (many (loc s)))) f.loc.den := by
+  refine ⟨{ f with loc := Cli.delLoc (minimize (many (loc s))) f.loc }, ?_, rfl, rfl, ?_⟩
+  · rw [delete_erase_feats]; exact List.mem_map_of_mem (List.mem_filter.mpr ⟨hf, hkeep⟩)
+  · have h := (Cli.delLoc_den (minimize (many (loc s))) f.loc hw).1 hk2
+    rw [show Cli.composeDel (minimize (many (loc s))) = Cli.unionDelMap (minimize (many (loc s))) from
+      funext (delete_remap_compose _)] at h
+    exact h
+
+/-- … and every feature of the `-e` output comes from a kept feature of the input -/
+theorem delete_erase_feature_origin (loc : Seq → List Reg) (s : Seq) (f' : Feature)
+    (hf' : f' ∈ (Cli.delete loc true s).feats) :
+    ∃ f ∈ s.feats, Cli.eraseKeep (minimize (many (loc s))) f = true ∧ f'.key = f.key ∧
+      f'.props = f.props ∧ f'.loc = Cli.delLoc (minimize (many (loc s))) f.loc := by
+  rw [delete_erase_feats] at hf'
+  obtain ⟨f, hf, rfl⟩ := List.mem_map.mp hf'
+  obtain ⟨hm, hk⟩ := List.mem_filter.mp hf
+  exact ⟨f, hm, hk, rfl, rfl, rfl⟩
+
+/-! ## insert / infix: what happens to the FEATURES (multi-site) -/
+
+/-- **composition lemma (insert)**, pure arithmetic: folding the single-insertion re-mappings
+`insMap h g` over the heads in DESCENDING order (`Cli.composeIns`, the order of the loop;
+duplicates allowed) is `Cli.multiInsMap`, a re-mapping of the INPUT's positions: `x` moves right
+by `g · #{h ∈ heads | h ≤ x}` (the boundary convention of `insMap`: the residue AT a head moves). -/
+theorem insert_remap_compose (heads : List Int) (g : Int) (hg : 0 ≤ g) (x : Int) :
+    Cli.composeIns g (Cli.sortDesc heads) x = Cli.multiInsMap heads g x := by
+  rw [Cli.composeIns_eq_multiInsMap g hg _ (Cli.sortDesc_sorted heads),
+    Cli.multiInsMap_perm (Cli.sortDesc_perm heads)]
+
+/-- `multiInsMap` is injective (two host residues never collide) and monotone bounds -/
+theorem multiInsMap_inj (heads : List Int) (g : Int) (hg : 0 ≤ g) (x x' : Int)
+    (h : Cli.multiInsMap heads g x = Cli.multiInsMap heads g x') : x = x' := by
+  rw [← insert_remap_compose heads g hg, ← insert_remap_compose heads g hg] at h
+  exact Cli.composeIns_inj g hg _ x x' h
+
+/-- **feature table after `gts insert` / `gts infix`**: every host feature exactly once
+(re-located by `Cli.insLoc`: `Shift(i, n)` — infix: `Expand(i, n)` — for every head, descending)
+and one copy of every guest feature per located region (`Cli.guestCopies`: `Expand(0, i)`, then
+re-located like a host feature by the later insertions); keys and qualifiers unchanged. -/
+theorem insert_feats_perm (loc : Seq → List Reg) (embed : Bool) (host guest : Seq) :
+    (Cli.insert loc embed host guest).feats.Perm
+      (host.feats.map (Cli.relocate embed guest.len (Cli.sortDesc ((loc host).map Reg.head))) ++
+        Cli.guestCopies embed guest.len guest.feats (Cli.sortDesc ((loc host).map Reg.head))) :=
+  Cli.insertAt_feats_perm embed _ host guest
+
+/-- … hence `|host| + #regions · |guest|` features -/
+theorem insert_feature_count (loc : Seq → List Reg) (embed : Bool) (host guest : Seq) :
+    (Cli.insert loc embed host guest).feats.length =
+      host.feats.length + (loc host).length * guest.feats.length := by
+  rw [(insert_feats_perm loc embed host guest).length_eq, List.length_append, List.length_map,
+    Cli.guestCopies_length, (Cli.sortDesc_perm _).length_eq, List.length_map]
+
+/-- FULL STATEMENT (false today through known finding K2 inside `Join`): the same without the
+guard; witness: `join(4..6,7)` with an empty guest inserted at 0 (C02 `shift_den_full_refuted`). -/
+theorem insert_host_features_full_refuted :
+    ¬ (∀ (loc : Seq → List Reg) (host guest : Seq) (f : Feature), f ∈ host.feats → f.loc.wf = true →
+        ∃ f' ∈ (Cli.insert loc false host guest).feats, f'.key = f.key ∧ f'.props = f.props ∧
+          f'.loc.den ≼ mapPos (Cli.multiInsMap ((loc host).map Reg.head) guest.len) f.loc.den) := by
+  intro h
+  obtain ⟨f', hf', _, _, hden⟩ := h (fun _ => [seg 0 1])
+    ⟨[⟨"gene", .joined [.ranged 3 6 false false, .point 6], []⟩], [97, 99, 103, 116, 97, 99, 103, 116, 97, 99]⟩
+    ⟨[], []⟩ ⟨"gene", .joined [.ranged 3 6 false false, .point 6], []⟩ (by simp) (by decide)
+  have hp : f' ∈ [Cli.relocate false 0 [0]
+      ⟨"gene", .joined [.ranged 3 6 false false, .point 6], []⟩] :=
+    (insert_feats_perm _ false _ _).subset hf'
+  rw [List.mem_singleton] at hp
+  subst hp
+  have := hden.2 (6, false) (by decide)
+  revert this
+  decide
+
+/-- **`gts insert`, host features, every locator** (last sentence of the property): for every
+host feature `f` with a well-formed location of any kind, nesting and strand, the record written
+by `gts insert` contains a feature with the same key and qualifiers whose location denotes
+exactly the residues `f` denoted in the INPUT, at their new positions (`Cli.multiInsMap` of the
+heads of the located regions: one guest length per head at or before the residue), same order
+and strand — provided K2 fires in no `Join` of any step (`Cli.insAbs false`, the conjunction of
+the single-step guards `shiftAbs`).  Heads may repeat, be unordered, or lie outside the record. -/
+theorem insert_host_features_partial (loc : Seq → List Reg) (host guest : Seq) (f : Feature)
+    (hf : f ∈ host.feats) (hw : f.loc.wf = true)
+    (hk2 : Cli.insAbs false guest.len (Cli.sortDesc ((loc host).map Reg.head)) f.loc = false) :
+    ∃ f' ∈ (Cli.insert loc false host guest).feats, f'.key = f.key ∧ f'.props = f.props ∧
+      f'.loc.den ≼ mapPos (Cli.multiInsMap ((loc host).map Reg.head) guest.len) f.loc.den := by
+  refine ⟨Cli.relocate false guest.len (Cli.sortDesc ((loc host).map Reg.head)) f, ?_, rfl, rfl, ?_⟩
+  · exact (insert_feats_perm loc false host guest).symm.subset
+      (List.mem_append_left _ (List.mem_map_of_mem hf))
+  · have h := (Cli.insLoc_den guest.len guest.len_nonneg _ f.loc hw).1 hk2
+    rw [show Cli.composeIns guest.len (Cli.sortDesc ((loc host).map Reg.head)) =
+        Cli.multiInsMap ((loc host).map Reg.head) guest.len from
+      funext (insert_remap_compose _ _ guest.len_nonneg)] at h
+    exact h
+
+/-- … with EQUALITY for duplicate-free locations (every real feature). -/
+theorem insert_host_features_eq_partial (loc : Seq → List Reg) (host guest : Seq) (f : Feature)
+    (hf : f ∈ host.feats) (hw : f.loc.wf = true)
+    (hk2 : Cli.insAbs false guest.len (Cli.sortDesc ((loc host).map Reg.head)) f.loc = false)
+    (hnd : f.loc.den.Nodup) :
+    ∃ f' ∈ (Cli.insert loc false host guest).feats, f'.key = f.key ∧ f'.props = f.props ∧
+      f'.loc.den = mapPos (Cli.multiInsMap ((loc host).map Reg.head) guest.len) f.loc.den := by
+  obtain ⟨f', h1, h2, h3, h4⟩ := insert_host_features_partial loc host guest f hf hw hk2
+  exact ⟨f', h1, h2, h3, h4.eq_of_nodup
+    (Cli.nodup_mapPos _ _ (multiInsMap_inj _ _ guest.len_nonneg) hnd)⟩
+
+/-- **`gts infix` (`Embed`), host features**: `Expand` stretches a part that spans a head over
+the guest copy there (that is the point of infix), so the law is stated like C02
+`expand_den_partial`: OUTSIDE the guest copies (`Cli.stripGuests` removes the residues of every
+copy, whose output positions are `Cli.copyStarts`) the location denotes exactly the residues
+`f` denoted in the input, at their new positions — under the folded guard `Cli.insAbs true`. -/
+theorem infix_host_features_partial (loc : Seq → List Reg) (host guest : Seq) (f : Feature)
+    (hf : f ∈ host.feats) (hw : f.loc.wf = true)
+    (hk2 : Cli.insAbs true guest.len (Cli.sortDesc ((loc host).map Reg.head)) f.loc = false) :
+    ∃ f' ∈ (Cli.insert loc true host guest).feats, f'.key = f.key ∧ f'.props = f.props ∧
+      Cli.stripGuests (Cli.copyStarts guest.len (Cli.sortDesc ((loc host).map Reg.head))) guest.len
+          f'.loc.den ≼
+        mapPos (Cli.multiInsMap ((loc host).map Reg.head) guest.len) f.loc.den := by
+  refine ⟨Cli.relocate true guest.len (Cli.sortDesc ((loc host).map Reg.head)) f, ?_, rfl, rfl, ?_⟩
+  · exact (insert_feats_perm loc true host guest).symm.subset
+      (List.mem_append_left _ (List.mem_map_of_mem hf))
+  · have h := (Cli.embLoc_den guest.len guest.len_nonneg _ (Cli.sortDesc_sorted _) f.loc hw).1 hk2
+    rw [show Cli.composeIns guest.len (Cli.sortDesc ((loc host).map Reg.head)) =
+        Cli.multiInsMap ((loc host).map Reg.head) guest.len from
+      funext (insert_remap_compose _ _ guest.len_nonneg)] at h
+    exact h
+
+/-- the descending head list, cut at one of its elements: what follows is descending and `≤` it -/
+theorem sortDesc_split (heads pre post : List Int) (i : Int)
+    (h : Cli.sortDesc heads = pre ++ i :: post) :
+    post.Pairwise (fun a b => b ≤ a) ∧ (∀ a ∈ post, a ≤ i) ∧ i ∈ heads ∧ (∀ a ∈ post, a ∈ heads) := by
+  have hs := Cli.sortDesc_sorted heads
+  rw [h] at hs
+  have h2 := List.pairwise_cons.mp (List.pairwise_append.mp hs).2.1
+  have hm : ∀ a ∈ pre ++ i :: post, a ∈ heads := fun a ha =>
+    (Cli.sortDesc_perm heads).subset (h ▸ ha)
+  exact ⟨h2.2, h2.1, hm i (by simp), fun a ha => hm a (by simp [ha])⟩
+
+/-- **guest features, every copy** (`gts insert`): let the descending head list be
+`pre ++ i :: post`.  The copy inserted at `i` ends up at position `i + |guest| · |post|` of the
+OUTPUT (it is moved by the `|post|` later insertions), and each of its features — same key and
+qualifiers as in the guest — denotes the guest's residues offset by exactly that position.
+Hypotheses: `0 ≤ i`, guest location well-formed with non-negative coordinates, K2 guards of
+`Expand(0, i)` and of the later steps. -/
+theorem guest_den_partial (loc : Seq → List Reg) (host guest : Seq) (pre post : List Int) (i : Int)
+    (hsplit : Cli.sortDesc ((loc host).map Reg.head) = pre ++ i :: post) (hi : 0 ≤ i)
+    (f : Feature) (hf : f ∈ guest.feats) (hw : f.loc.wf = true) (hnn : f.loc.nonneg = true)
+    (g1 : Loc.expandAbs f.loc 0 i = false)
+    (g2 : Cli.insAbs false guest.len post (f.loc.expand 0 i) = false) :
+    ∃ f' ∈ (Cli.insert loc false host guest).feats, f'.key = f.key ∧ f'.props = f.props ∧
+      f'.loc.den ≼ mapPos (· + (i + guest.len * post.length)) f.loc.den := by
+  obtain ⟨hs, hpost, _, _⟩ := sortDesc_split _ pre post i hsplit
+  refine ⟨Cli.relocate false guest.len post { f with loc := f.loc.expand 0 i }, ?_, rfl, rfl, ?_⟩
+  · apply (insert_feats_perm loc false host guest).symm.subset
+    rw [hsplit]
+    exact List.mem_append_right _ (Cli.mem_guestCopies false guest.len guest.feats pre i post f hf)
+  · exact Cli.guestLoc_den guest.len guest.len_nonneg i hi post hs hpost f.loc hw hnn g1 g2
+
+/-- **guest features, every copy** (`gts infix`): the same outside the LATER guest copies
+(`Expand` of a later insertion at an index `≤ i` only translates the copy; the statement keeps
+the form of C02 `expand_den_partial`). -/
+theorem infix_guest_den_partial (loc : Seq → List Reg) (host guest : Seq) (pre post : List Int) (i : Int)
+    (hsplit : Cli.sortDesc ((loc host).map Reg.head) = pre ++ i :: post) (hi : 0 ≤ i)
+    (f : Feature) (hf : f ∈ guest.feats) (hw : f.loc.wf = true) (hnn : f.loc.nonneg = true)
+    (g1 : Loc.expandAbs f.loc 0 i = false)
+    (g2 : Cli.insAbs true guest.len post (f.loc.expand 0 i) = false) :
+    ∃ f' ∈ (Cli.insert loc true host guest).feats, f'.key = f.key ∧ f'.props = f.props ∧
+      Cli.stripGuests (Cli.copyStarts guest.len post) guest.len f'.loc.den ≼
+        mapPos (· + (i + guest.len * post.length)) f.loc.den := by
+  obtain ⟨hs, hpost, _, _⟩ := sortDesc_split _ pre post i hsplit
+  refine ⟨Cli.relocate true guest.len post { f with loc := f.loc.expand 0 i }, ?_, rfl, rfl, ?_⟩
+  · apply (insert_feats_perm loc true host guest).symm.subset
+    rw [hsplit]
+    exact List.mem_append_right _ (Cli.mem_guestCopies true guest.len guest.feats pre i post f hf)
+  · exact Cli.guestLoc_emb_den guest.len guest.len_nonneg i hi post hs hpost f.loc hw hnn g1 g2
+
+/-- **… and that position is where the copy's residues are**: with every head in `[0, len]`, the
+output of `gts insert` / `gts infix` reads the guest's residues at
+`[i + |guest| · |post|, i + |guest| · |post| + |guest|)`. -/
+theorem guest_copy_bytes (loc : Seq → List Reg) (embed : Bool) (host guest : Seq)
+    (hw : ∀ h ∈ (loc host).map Reg.head, 0 ≤ h ∧ h ≤ host.len) (pre post : List Int) (i : Int)
+    (hsplit : Cli.sortDesc ((loc host).map Reg.head) = pre ++ i :: post) :
+    ((Cli.insert loc embed host guest).bytes.drop (i + guest.len * post.length).toNat).take
+      guest.bytes.length = guest.bytes := by
+  obtain ⟨_, hpost, hi, hpm⟩ := sortDesc_split _ pre post i hsplit
+  have hi' := hw i hi
+  unfold Cli.insert
+  rw [Cli.insertAt_bytes, hsplit]
+  have e : (i + guest.len * post.length).toNat = i.toNat + post.length * guest.bytes.length := by
+    have : guest.len * (post.length : Int) = ((post.length * guest.bytes.length : Nat) : Int) := by
+      unfold Seq.len; rw [Int.natCast_mul, Int.mul_comm]
+    rw [this]; omega
+  rw [e]
+  exact Cli.foldl_splice_copy pre i post guest.bytes host.bytes hi'
+    (fun a ha => ⟨(hw a (hpm a ha)).1, hpost a ha⟩)
+
 /-! ## non-vacuity -/
 
 /-- `ACGTAC` -/
@@ -578,5 +905,71 @@ example : (Cli.extract [loc0] true s0).map (·.bytes) = [[65, 67]] := by
   simp only [Cli.extract, Cli.extractRegs, invertLinear_eq, minimize_eq]; decide
 example : within s0.len (many ([loc0].flatMap fun l => l s0)) ∧ nonEmpty (many ([loc0].flatMap fun l => l s0)) := by
   decide
+
+/-! ### non-vacuity of the feature theorems -/
+
+/-- a complement-strand join with partial ends, spanning both cuts / all insertion sites -/
+def gene1 : Feature :=
+  ⟨"gene", .compl (.joined [.ranged 1 4 true false, .point 6, .ranged 8 11 false true]), []⟩
+
+/-- `ACGTACGTACGT` with a `source`, the join above and a feature equal to the first cut -/
+def s1 : Seq :=
+  ⟨[⟨"source", .ranged 0 12 false false, []⟩, gene1, ⟨"misc_feature", .ranged 2 5 false false, []⟩],
+   [65, 67, 71, 84, 65, 67, 71, 84, 65, 67, 71, 84]⟩
+
+/-- a backward segment, a nested compound region and a zero-length leaf -/
+def loc1 : Seq → List Reg := fun _ => [seg 5 2, many [seg 9 10, seg 3 4], seg 7 7]
+
+example : gene1 ∈ s1.feats := List.mem_cons_of_mem _ (List.mem_cons_self ..)
+example : minimize (many (loc1 s1)) = [(2, 5), (7, 7), (9, 10)] := by rw [minimize_eq]; decide
+/-- hypotheses of `delete_features_partial` / `delete_features_eq_partial` -/
+example : gene1.loc.wf = true ∧ Cli.delAbs (minimize (many (loc1 s1))) gene1.loc = false ∧
+    gene1.loc.den.Nodup := by
+  rw [minimize_eq]; decide
+/-- … and what they give: of the residues 10,9,8 | 6 | 3,2,1 (complement strand) 9 and 3,2 are cut;
+the survivors 10, 8, 6, 1 move left by 4, 3, 3 and 0 -/
+example : filterMapPos (Cli.unionDelMap (minimize (many (loc1 s1)))) gene1.loc.den =
+    [(6, true), (5, true), (3, true), (1, true)] := by
+  rw [minimize_eq]; decide
+example : (Cli.delete loc1 false s1).feats.map (·.loc.den) =
+    [fwd [0, 1, 2, 3, 4, 5, 6, 7], [(6, true), (5, true), (3, true), (1, true)], []] := by
+  unfold Cli.delete; rw [minimize_eq]; decide
+/-- `-e`: the feature lying within the first cut is dropped, `source` and the join survive -/
+example : (s1.feats.map (Cli.eraseKeep (minimize (many (loc1 s1))))) = [true, true, false] ∧
+    (Cli.delete loc1 true s1).feats.map (·.key) = ["source", "gene"] := by
+  unfold Cli.delete; rw [minimize_eq]; decide
+
+/-- guest `NN` with one feature over both residues -/
+def guest1 : Seq := ⟨[⟨"misc_feature", .ranged 0 2 false false, []⟩], [78, 78]⟩
+
+/-- three regions, two of them with the same head: heads 5, 3, 5 -/
+def loc2 : Seq → List Reg := fun _ => [seg 5 2, seg 3 4, seg 5 9]
+
+example : Cli.sortDesc ((loc2 s1).map Reg.head) = [5, 5, 3] := by decide
+/-- hypotheses of `insert_host_features_partial` / `…_eq_partial` and of `infix_host_features_partial` -/
+example : gene1.loc.wf = true ∧
+    Cli.insAbs false guest1.len (Cli.sortDesc ((loc2 s1).map Reg.head)) gene1.loc = false ∧
+    Cli.insAbs true guest1.len (Cli.sortDesc ((loc2 s1).map Reg.head)) gene1.loc = false ∧
+    gene1.loc.den.Nodup := by decide
+/-- … and what they give: residues 1,2 stay, 3 moves by one guest, 6 and 8..10 by three -/
+example : mapPos (Cli.multiInsMap ((loc2 s1).map Reg.head) guest1.len) gene1.loc.den =
+    [(16, true), (15, true), (14, true), (12, true), (5, true), (2, true), (1, true)] := by decide
+example : ((Cli.insert loc2 false s1 guest1).feats.filter (·.key = "gene")).map (·.loc.den) =
+    [[(16, true), (15, true), (14, true), (12, true), (5, true), (2, true), (1, true)]] := by decide
+/-- infix stretches the part `2..4` over the guest copy at 3 (output residues 3, 4) -/
+example : ((Cli.insert loc2 true s1 guest1).feats.filter (·.key = "gene")).map (·.loc.den) =
+    [[(16, true), (15, true), (14, true), (12, true), (5, true), (4, true), (3, true), (2, true), (1, true)]] ∧
+    Cli.copyStarts guest1.len (Cli.sortDesc ((loc2 s1).map Reg.head)) = [9, 7, 3] := by decide
+/-- hypotheses of `guest_den_partial` / `infix_guest_den_partial` / `guest_copy_bytes` for the
+FIRST copy (inserted at 5, then moved by two later insertions to 9) -/
+example : Cli.sortDesc ((loc2 s1).map Reg.head) = [] ++ 5 :: [5, 3] ∧
+    (∀ h ∈ (loc2 s1).map Reg.head, 0 ≤ h ∧ h ≤ s1.len) ∧
+    (∀ f ∈ guest1.feats, f.loc.wf = true ∧ f.loc.nonneg = true ∧ Loc.expandAbs f.loc 0 5 = false ∧
+      Cli.insAbs false guest1.len [5, 3] (f.loc.expand 0 5) = false ∧
+      Cli.insAbs true guest1.len [5, 3] (f.loc.expand 0 5) = false) := by decide
+example : ((Cli.insert loc2 false s1 guest1).feats.filter (·.key = "misc_feature")).map (·.loc.den) =
+    [fwd [2, 5, 6], fwd [3, 4], fwd [7, 8], fwd [9, 10]] ∧
+    (Cli.insert loc2 false s1 guest1).bytes =
+      [65, 67, 71, 78, 78, 84, 65, 78, 78, 78, 78, 67, 71, 84, 65, 67, 71, 84] := by decide
 
 end Gts.C15
